@@ -7,7 +7,7 @@ META = {
     "engine": "coq-model+correspondence",
     "technique": "Coq proof (induction over batches and histories) that the two-phase cache transform is transparent when keys determine results + reflection proofs (QSym) that every parameter period used by the operator hash is an exact period of the gate matrix + vm_compute correspondence of the cache model against real cached executions",
     "design_ref": "DESIGN.md §3 C05, §5 item 1",
-    "text": "Model coq/Disc/CacheModel.v transcribes _cache_transform applied to a batch (phase 1: hit / miss with placeholder, phase 2: post-processing in order) and histories sharing one cache. Theorems: cache_transparent / shared_cache_history_transparent (for all batches, histories and consistent caches, if equal keys imply equal device results then cached execution returns exactly the device results in order) and key_collision_changes_results (the hypothesis is necessary). The hypothesis is discharged for the parameter reduction the hash performs: the harness probes the real hash for the period it uses per (gate class, parameter) and Coq proves M(theta_j + P) = M(theta_j) exactly (global phase included) for all parameter values. The model is run in Coq on generated batch histories (duplicates, 2pi/4pi-shifted twins, wrappers ctrl/adjoint/pow, state/expval/probs/var/density-matrix measurements, shared caches) and compared with which circuits really reached the device and which results came back; cached results are also compared with uncached ones directly.",
+    "text": "Model coq/Disc/CacheModel.v transcribes _cache_transform applied to a batch (phase 1: hit / miss with placeholder, phase 2: post-processing in order) and histories sharing one cache. Theorems: cache_transparent / shared_cache_history_transparent (for all batches, histories and consistent caches, if equal keys imply equal device results then cached execution returns exactly the device results in order) and key_collision_changes_results (the hypothesis is necessary). The hypothesis is discharged for the parameter reduction the hash performs: the harness probes the real hash for the period it uses per (gate class, parameter) and Coq proves M(theta_j + P) = M(theta_j) exactly (global phase included) for all parameter values. The model is run in Coq on a fixed corpus (tapes derived by QuantumScript.copy(measurements= / shots= / trainable_params= / operations=) from a tape that already went through a cached execution, on default.qubit and default.mixed; near-duplicates differing only in a keyword setting of one operator: IntegerComparator value/geq, PauliRot word, control values, PauliError word, channel class; near-duplicates whose >1000-entry array parameters differ only in entries an abbreviated printout elides) and on generated batch histories (duplicates, 2pi/4pi-shifted twins, copies with other measurements derived from hashed tapes, wrappers ctrl/adjoint/pow, state/expval/probs/var/density-matrix measurements, shared caches) and compared with which circuits really reached the device and which results came back; cached results are also compared with uncached ones directly.",
     "note": "Trusted: Coq kernel (+ stdlib real axioms in period_obligation_forall); translator qsym/qx for the matrices; the rest of the key (names, wires, hyperparameters, trainable indices, shots, measurement data) is covered by the correspondence run only; the 10-decimal rounding in the key merges parameters closer than 5e-11 (results then differ by <= 1e-10): compared with tolerance 1e-9, not claimed exact. A defect found here (period 2 pi for RX/RY/RZ/Rot/U3) was repaired in /repo by a fix: commit.",
     "assumptions": ["analytic execution is deterministic: run is a function of the tape"],
     "trusted": ["hand model coq/Disc/CacheModel.v tied by correspondence", "translator harness/qsym.py, qx.py"],
@@ -47,15 +47,16 @@ def run(ctx):
     bad = ctx.coq_eval_cases("cases", "From PLV Require Import Disc.CacheModel.", terms, "check_case")
     for ci, c in enumerate(cases):
         if c["mismatch"]:
-            ctx.violation("cached-vs-uncached:" + json.dumps(c["tapes"])[:300], {"tapes": c["tapes"], "batches": c["batches"], "first_mismatch": c["mismatch"]},
+            ctx.violation("cached-vs-uncached:" + json.dumps(c["tapes"])[:300], {"tapes": c["tapes"], "batches": c["batches"], "first_mismatch": c["mismatch"], "case_class": c.get("label", "generated history")},
                           what="cached execution returned a different result than uncached execution")
     for b in bad:
         c = cases[b]
         if not c["mismatch"]:
-            ctx.violation("corr:" + json.dumps(c["tapes"])[:300], {"tapes": c["tapes"], "batches": c["batches"], "observed": c["observed"], "keys": c["keys"]},
+            ctx.violation("corr:" + json.dumps(c["tapes"])[:300], {"tapes": c["tapes"], "batches": c["batches"], "observed": c["observed"], "keys": c["keys"], "case_class": c.get("label", "generated history")},
                           what="cached execution differs from the proved cache model (which circuits were executed / which results returned)")
     ctx.coverage.update({"evaluations": len(cases) + len(items), "distinct_nontrivial": sum(1 for c in cases if c["dup_keys"]) + len(obl),
-                         "rule": "batch histories with forced 2pi-multiple twins sharing one cache; non-trivial = history in which two distinct circuits share a key; plus one period obligation per (gate, parameter) whose hash is periodic",
+                         "rule": "batch histories with forced 2pi-multiple twins sharing one cache; non-trivial = history in which two distinct circuits share a key; plus one period obligation per (gate, parameter) whose hash is periodic; fixed corpus first: tapes derived with copy(measurements/shots/trainable_params/operations) from an already executed (hashed) tape, keyword (hyperparameter) twins on default.qubit and default.mixed, large-array twins differing in entries an abbreviated printout elides",
+                         "fixed_corpus_cases": out.get("nfixed", 0), "fixed_corpus_classes": sorted(set(c["label"] for c in cases if c.get("label"))),
                          "periods_found": [(i["name"], i["param"], i["period_over_2pi"]) for i in items if i.get("period_over_2pi")],
                          "histories_with_key_sharing": sum(1 for c in cases if c["dup_keys"]),
                          "extraction_problems": [(i["name"], i.get("detail", "")[:80]) for i in bad_items]})
